@@ -586,7 +586,7 @@ static int op_clone(vf_rng *r, int kind)
 	if (kind == 0) { size = 1; wm = (n->_meta && meta_index(n->_meta) >= 0) ? 1 : 0; }
 	else if (kind == 2) size = subtree_size(n, &wm);
 	else for (const MPT_STRUCT(node) *k = n; k; k = k->next) size += subtree_size(k, &wm);
-	if (alive_count() + size > LIVE_MAX + 8 || nn + size > MAXN || nmetas + wm > MAXM) return 0;
+	if (alive_count() + size > LIVE_MAX || nn + size > MAXN || nmetas + wm > MAXM) return 0;
 	for (const MPT_STRUCT(node) *k = (kind == 1) ? n : n->children; k && kind; k = k->next) {
 		if (kind == 1) { for (const MPT_STRUCT(node) *c = k->children; c; c = c->next) if (c->children) depth2 = 1; }
 		else if (k->children) depth2 = 1;
@@ -822,6 +822,17 @@ static int op_lookup(vf_rng *r, int kind)
 		ret = mpt_node_next(cur, name);
 		for (int j = p; j < n; j++) if (name_is(L[j], name)) { exp = L[j]; break; }
 	}
+	else if (kind == 3) {
+		cur_op = "gnode_pos";
+		vf_at("mpt_gnode_pos");
+		vf_count("mpt_gnode_pos", 1);
+		pos = positions[vf_below(r, NPOS)];
+		name = 0;
+		vf_log("gnode_pos(%d, %d)", i, pos);
+		ret = mpt_gnode_pos(cur, pos);
+		int t = !pos ? n - 1 : pos > 0 ? p + pos - 1 : p + pos;
+		exp = (t >= 0 && t < n) ? L[t] : 0;
+	}
 	else {
 		cur_op = "node_find";
 		vf_at("mpt_node_find");
@@ -841,9 +852,9 @@ static int op_lookup(vf_rng *r, int kind)
 		VF_CHECK(ri >= 0, K(cur_op, "result-dangling"), "returned %p which is no live node", (void *) ret);
 		for (int j = 0; j < n; j++) if (L[j] == ret) in = 1;
 		VF_CHECK(in, K(cur_op, "result-outside-list"), "returned node %d which is not in the searched list", ri);
-		VF_CHECK(name_is(ret, name), K(cur_op, "result-wrong-name"), "returned node %d %s for name '%s'", ri, nname(ret), name);
+		if (name) VF_CHECK(name_is(ret, name), K(cur_op, "result-wrong-name"), "returned node %d %s for name '%s'", ri, nname(ret), name);
 	}
-	VF_CHECK(ret == exp, K(cur_op, "result"), "'%s' pos %d from node %d: returned node %d, expected %d", name, pos, i,
+	VF_CHECK(ret == exp, K(cur_op, "result"), "'%s' pos %d from node %d: returned node %d, expected %d", name ? name : "(position)", pos, i,
 	         ret ? idx_of(ret) : -1, exp ? idx_of(exp) : -1);
 	if (exp) vf_count("outcome:lookup-found", 1);
 	vf_count("monitor:lookup-compares", 1);
@@ -1025,8 +1036,8 @@ static int op_parse(vf_rng *r)
 
 /* ------------------------------------------------------------------ entry */
 enum { ONew, OAfter, OBefore, OGAdd, ONAdd, OGIns, ONIns, OUnlink, ODestroy, OClear, OCloneN, OCloneL, OCloneT,
-       OMove, OSwap, OSwitch, ORelink, ORelinkB, OLocate, ONext, OFind, OTraverse, OParse, OCount };
-static const uint8_t weights[OCount] = { 10, 5, 5, 8, 8, 12, 9, 5, 5, 2, 2, 4, 5, 8, 3, 5, 2, 2, 3, 2, 3, 4, 3 };
+       OMove, OSwap, OSwitch, ORelink, ORelinkB, OLocate, ONext, OFind, OPos, OTraverse, OParse, OCount };
+static const uint8_t weights[OCount] = { 10, 5, 5, 8, 8, 12, 9, 5, 5, 2, 2, 4, 5, 8, 3, 5, 2, 2, 3, 2, 3, 2, 4, 3 };
 
 static void teardown(void)
 {
@@ -1049,7 +1060,7 @@ static void teardown(void)
 	vf_count("monitor:final-release-audits", 1);
 }
 
-uint64_t vf_cases(void) { return vf_thorough ? 1500000 : 40000; }
+uint64_t vf_cases(void) { return vf_thorough ? 3000000 : 200000; }
 
 void vf_case(uint64_t idx, vf_rng *r)
 {
@@ -1085,7 +1096,7 @@ void vf_case(uint64_t idx, vf_rng *r)
 		case OSwitch: done = op_swap(r, 1); break;
 		case ORelink: done = op_relink(r); break;
 		case ORelinkB: done = op_relink_build(r); break;
-		case OLocate: case ONext: case OFind: done = op_lookup(r, op - OLocate); break;
+		case OLocate: case ONext: case OFind: case OPos: done = op_lookup(r, op - OLocate); break;
 		case OTraverse: done = op_traverse(r); break;
 		case OParse: done = op_parse(r); break;
 		}
